@@ -31,9 +31,14 @@ MWraps == {MArr(<<MBinS(<<"s", "t", "r", "i", "n", "g">>), MStr(<<"a">>)>>, -1),
            MArr(<<MBinS(<<"b", "o", "o", "l">>), MBool(TRUE)>>, -1), MNil, MUnk}
 MKeys == <<MStr(<<"a">>), MStr(<<"b">>), MStr(<<"c">>)>>
 TDynMembers == {MArr(s, -1) : s \in SeqsUpTo(MWraps, 3)} \cup {MMap([i \in 1..Len(s) |-> MP(MKeys[i], s[i])], -1) : s \in SeqsUpTo(MWraps, 3)}
-StructTargets == <<TNum, TStr, TBool, TDyn, TList(TNum), TList(TDyn), TSet(TStr), TMap(TNum), TMap(TDyn), TTup(<<TNum, TStr>>), TTup(<<TDyn>>),
+\* maps whose keys are two spellings (normalized and not) of ONE attribute name / key, alone, together and next to another key
+NfKeys == {<<"eacute">>, <<"e", "acute">>, <<"a">>}
+NfMaps == {MMap(<<MP(MStr(k1), v), MP(MStr(k2), w)>>, -1) : k1 \in NfKeys, k2 \in NfKeys, v \in {MStr(<<"a">>), MInt(1)}, w \in {MStr(<<"b">>)}}
+          \cup {MMap(<<MP(MStr(k), MStr(<<"a">>))>>, -1) : k \in NfKeys}
+          \cup {MArr(<<MMap(<<MP(MStr(<<"eacute">>), MStr(<<"a">>)), MP(MStr(<<"e", "acute">>), MStr(<<"b">>))>>, -1)>>, -1)}
+StructTargets == <<TObj([eacute |-> TStr, a |-> TStr]), TObj([eacute |-> TStr]), TList(TObj([eacute |-> TStr, a |-> TStr])), TNum, TStr, TBool, TDyn, TList(TNum), TList(TDyn), TSet(TStr), TMap(TNum), TMap(TDyn), TTup(<<TNum, TStr>>), TTup(<<TDyn>>),
                    TObj([a |-> TNum, b |-> TStr]), TObj([a |-> TDyn]), TList(TList(TNum)), TSet(TDyn)>>
-StructLines == {[k |-> "mp", tok |-> t, targets |-> StructTargets, mustfail |-> [i \in 1..Len(StructTargets) |-> FALSE]] : t \in (IF Thorough THEN T2 ELSE T1 \cup TakeN(T2 \ T1, 250)) \cup TDynMembers}
+StructLines == {[k |-> "mp", tok |-> t, targets |-> StructTargets, mustfail |-> [i \in 1..Len(StructTargets) |-> FALSE]] : t \in (IF Thorough THEN T2 ELSE T1 \cup TakeN(T2 \ T1, 250)) \cup TDynMembers \cup NfMaps}
 \* (C) JSON documents x unrelated targets, and type descriptions for json.UnmarshalType
 JLeaf == {JNull, JBool(TRUE), JNum(Qn(4)), JNum([lm |-> "u64maxp"]), JStr(<<>>), JStr(<<"a">>)}
 JD1 == JLeaf \cup {JArr(s) : s \in SeqsUpTo(TakeN(JLeaf, 4), 2)}
@@ -48,8 +53,9 @@ JW(t, v) == JObj(<<Pair(KW("value"), v), Pair(KW("type"), JStr(KW(t)))>>)
 JWraps == {JW("string", JStr(<<"a">>)), JW("number", JNum(Qn(4))), JW("bool", JBool(TRUE)), JNull, JW("string", JNull)}
 JKeys == <<<<"a">>, <<"b">>, <<"c">>>>
 JDynMembers == {JArr(s) : s \in SeqsUpTo(JWraps, 3)} \cup {JObj([i \in 1..Len(s) |-> Pair(JKeys[i], s[i])]) : s \in SeqsUpTo(JWraps, 3)}
+JNf == {JObj(<<Pair(k1, v), Pair(k2, JStr(<<"b">>))>>) : k1 \in NfKeys, k2 \in NfKeys, v \in {JStr(<<"a">>), JNum(Qn(4))}} \cup {JObj(<<Pair(k, JStr(<<"a">>))>>) : k \in NfKeys}
 JD2 == JDup \cup JD1 \cup {JArr(<<x, y>>) : x \in TakeN(JD1 \ JLeaf, 20), y \in TakeN(JD1, 5)} \cup {JObj(<<Pair(<<"a">>, x), Pair(<<"b">>, y)>>) : x \in TakeN(JD1 \ JLeaf, 20), y \in TakeN(JLeaf, 3)}
-JLines == {[k |-> "js", doc |-> d, targets |-> StructTargets] : d \in (IF Thorough THEN JD2 ELSE JD1 \cup JDup \cup TakeN(JD2 \ JD1, 150)) \cup JDynMembers}
+JLines == {[k |-> "js", doc |-> d, targets |-> StructTargets] : d \in (IF Thorough THEN JD2 ELSE JD1 \cup JDup \cup TakeN(JD2 \ JD1, 150)) \cup JDynMembers \cup JNf}
 \* type descriptions (valid and invalid)
 TLeaf == {JStr(KW("string")), JStr(KW("number")), JStr(KW("bool")), JStr(KW("dynamic")), JStr(<<"x">>), JNull, JNum(Qn(4)), JBool(TRUE), JObj(<<>>), JArr(<<>>)}
 TD1 == TLeaf \cup {JArr(<<JStr(KW(c)), t>>) : c \in {"list", "set", "map", "tuple", "object"}, t \in TLeaf}
